@@ -554,7 +554,9 @@ impl<'a> Parser<Span<'a>, ParseEvents<'a>, nom::error::Error<Span<'a>>> for Fina
                 } else {
                     input
                 };
-                let (input, _) = char_comp::space0(input)?;
+                // With comments allowed the streaming parser asks for more input when only blank
+                // lines follow the attributes, so line breaks can still be ahead here.
+                let (input, _) = char_comp::multispace0(input)?;
                 parse_after_attr_final(input)
             }
         }
